@@ -12,7 +12,8 @@ EXTENDS Integers
 CONSTANTS RestartTo,   \* value `since` takes on the update that follows a drift (1; PCACD 0; HDM detect_batch=1: 2)
           Incs,        \* admissible increments of `total` per accepted update ({1}; HDM detect_batch=1: {1,2})
           HasRecs,     \* detector exposes retraining_recs
-          EpochBound   \* recs of an epoch never reach back before the epoch (all but ADWIN, whose window survives)
+          EpochBound,  \* recs of an epoch never reach back before the epoch (all but ADWIN, whose window survives)
+          RefRestart   \* the update that completes a reference window restarts `since` at 0 (kdq-tree detectors only)
 VARIABLES total, since, state, recs, warm
 lcvars == <<total, since, state, recs, warm>>
 
@@ -53,9 +54,14 @@ Rejected == UNCHANGED lcvars
 UserReset == /\ since' = 0 /\ state' = "None" /\ total' = total
              /\ recs' = (IF HasRecs THEN NoRecs ELSE recs) /\ warm' \in BOOLEAN
 
-(* kdq-tree streaming: completing the reference window restarts the epoch count *)
-RefWindowComplete == /\ since' = 0 /\ UNCHANGED <<total, state, recs>> /\ warm' \in BOOLEAN
+(* kdq-tree detectors: the update that completes the reference window (streaming) or is itself used as
+   the reference (batch, first update without set_reference) is counted and restarts the epoch count at 0 *)
+AcceptedRefComplete == /\ RefRestart /\ total' = total + 1 /\ since' = 0 /\ state' = "None"
+                       /\ recs' = recs /\ warm' \in BOOLEAN
+(* set_reference on a batch detector: a new epoch starts, nothing is counted *)
+SetReference == /\ since' \in {0, RestartTo - 1} /\ state' = "None" /\ warm' \in BOOLEAN /\ recs' = recs
+                /\ \E inc \in {0} \cup {i - 1 : i \in Incs} : total' = total + inc
 
-Next == Accepted \/ Rejected \/ UserReset
+Next == Accepted \/ Rejected \/ UserReset \/ AcceptedRefComplete \/ SetReference
 Spec == Init /\ [][Next]_lcvars
 ============================================================================
